@@ -20,6 +20,21 @@ Local Open Scope N_scope.
 Theorem C07_extend_assoc : forall a b c, extend (extend a b) c = extend a (extend b c).
 Proof. exact extend_assoc. Qed.
 
+(* objects carry the asserts of every layer (field [asserts], aligned with [layers]); the equality
+   above includes them, and extension keeps all of them, whatever fields the layers have *)
+Theorem C07_asserts_extend : forall a b, asserts (extend a b) = asserts b ++ asserts a.
+Proof. exact asserts_extend. Qed.
+
+(* a layer WITHOUT fields still matters: {x: 0} + {assert self.x != 0 : "m1"} has the fields of
+   {x: 0} but neither .x nor manifestation succeed *)
+Theorem C07_assert_only_layer_matters :
+  layers assert_only = [[]] /\
+  index_field zero_x nx = Ok (VNum 0) /\
+  index_field (extend zero_x assert_only) nx = Err (EAssert (Some 1)) /\
+  manifest_checked (extend zero_x assert_only) = Err (EAssert (Some 1)) /\
+  get_fields_order (extend zero_x assert_only) = get_fields_order zero_x.
+Proof. exact assert_only_layer_matters. Qed.
+
 (* o + {} : every lookup (from the top and from inside any layer), visibility, field order,
    visible order and length are those of o (layer indices move by one) *)
 Theorem C07_extend_empty_r : forall o, wf_obj o ->
@@ -224,6 +239,8 @@ Theorem C07_prefix_defect_witness :
 Proof. exact prefix_defect_witness. Qed.
 
 Print Assumptions C07_extend_assoc.
+Print Assumptions C07_asserts_extend.
+Print Assumptions C07_assert_only_layer_matters.
 Print Assumptions C07_extend_empty_r.
 Print Assumptions C07_extend_empty_l.
 Print Assumptions C07_extend_empty_r_values.
